@@ -14,7 +14,7 @@
 use crate::common::Ctx;
 use crate::panicsafe::layouts;
 use micromap::{Entry, Map};
-use support::elems::{Class, DEFAULT_PAYLOAD, TK, TV};
+use support::elems::{z_live, z_set_eq, Class, DEFAULT_PAYLOAD, TK, TV, Z};
 use support::fault::{self, Caught};
 use support::frame::addr_of;
 use support::ledger;
@@ -466,6 +466,120 @@ impl<'a> Ent<'a> {
         }
         if ledger::viol_total() > 0 {
             self.cx.rep.absorb_violations("C11", &|| vec![descr.clone()]);
+        }
+    }
+
+    /// zero-sized key and value: `Map<Z, (), N>` (all keys equal, or all keys different)
+    pub fn zst<const N: usize>(&mut self) {
+        self.case_no += 1;
+        ledger::set_ctx(self.case_no, 0, "entry(zero-sized)");
+        let live0 = z_live();
+        let mut problems: Vec<String> = Vec::new();
+        for all_equal in [true, false] {
+            z_set_eq(all_equal);
+            for fill in 0..=N {
+                if all_equal && fill > 1 {
+                    continue;
+                }
+                for chain in 0..7 {
+                    self.cx.rep.evaluations += 1;
+                    let mut m: Map<Z, (), N> = Map::new();
+                    for _ in 0..fill {
+                        m.insert(Z::new(), ());
+                    }
+                    let present = all_equal && fill == 1;
+                    let full = fill == N;
+                    let mut calls = 0u32;
+                    let r = fault::catch(|| {
+                        let e = m.entry(Z::new());
+                        let occ = matches!(e, Entry::Occupied(_));
+                        match chain {
+                            0 => {
+                                let _ = e.key();
+                            }
+                            1 => {
+                                e.or_insert(());
+                            }
+                            2 => {
+                                e.or_insert_with(|| {
+                                    calls += 1;
+                                });
+                            }
+                            3 => {
+                                e.or_default();
+                            }
+                            4 => {
+                                e.and_modify(|_| calls += 1).or_insert(());
+                            }
+                            5 => match e {
+                                Entry::Occupied(mut o) => {
+                                    let _ = o.key();
+                                    let _ = o.get();
+                                    *o.get_mut() = ();
+                                    o.insert(());
+                                    let _ = o.remove();
+                                }
+                                Entry::Vacant(v) => {
+                                    let _ = v.key();
+                                    drop(v.into_key());
+                                }
+                            },
+                            _ => match e {
+                                Entry::Occupied(o) => {
+                                    drop(o.remove_entry());
+                                }
+                                Entry::Vacant(v) => {
+                                    v.insert(());
+                                }
+                            },
+                        }
+                        occ
+                    });
+                    let inserting = matches!(chain, 1 | 2 | 3 | 4) || (chain == 6 && !present);
+                    let must_panic = !present && full && inserting;
+                    let d = format!("Map<Z,(),{}> keys-all-equal={} holding {} entr{}: entry(Z) chain #{}", N, all_equal, fill, if fill == 1 { "y" } else { "ies" }, chain);
+                    match r {
+                        Caught::Ok(occ) => {
+                            if occ != present {
+                                problems.push(format!("{}: Occupied={} but the key is present={}", d, occ, present));
+                            }
+                            if must_panic {
+                                problems.push(format!("{}: added a new key to a full map without panicking", d));
+                            }
+                            let want_len = if present { if chain >= 5 { 0 } else { 1 } } else if inserting { fill + 1 } else { fill };
+                            if m.len() != want_len || m.iter().count() != want_len {
+                                problems.push(format!("{}: len() = {} afterwards, the direct operations give {}", d, m.len(), want_len));
+                            }
+                            let want_calls = match chain {
+                                2 => u32::from(!present),
+                                4 => u32::from(present),
+                                _ => 0,
+                            };
+                            if calls != want_calls {
+                                problems.push(format!("{}: closure ran {} times, expected {}", d, calls, want_calls));
+                            }
+                        }
+                        Caught::Panic(msg) => {
+                            if !must_panic {
+                                problems.push(format!("{}: panicked ({}) where the direct operations do not", d, msg));
+                            }
+                        }
+                        Caught::Injected(..) => {}
+                    }
+                    drop(m);
+                }
+            }
+        }
+        z_set_eq(true);
+        if z_live() != live0 {
+            problems.push(format!("Map<Z,(),{}>: {} zero-sized keys alive after every map was dropped", N, z_live() - live0));
+        }
+        self.cx.rep.hit(&format!("zst:N={}", N));
+        for p in problems {
+            v("zero-sized-entry", p);
+        }
+        if ledger::viol_total() > 0 {
+            self.cx.rep.absorb_violations("C11", &|| vec![format!("zero-sized key/value entry probe, N={}", N)]);
         }
     }
 
